@@ -844,6 +844,15 @@ let handle_nopanic fields =
     relay_oracle "nopanic" (cls ^ " " ^ res) orc
   | _ -> raise (Parse "bad nopanic line")
 
+
+(* ---------- family: meta (C17; relations between runs of the implementation) ---------- *)
+let handle_meta fields =
+  match fields with
+  | [rel; size; orc] ->
+    count_case (rel ^ size ^ orc) (rel <> "base");
+    relay_oracle "meta" (rel ^ " " ^ size) orc
+  | _ -> raise (Parse "bad meta line")
+
 (* ---------- main loop ---------- *)
 let () =
   Array.iter (fun a -> if a = "--nodedupe" then dedupe := false) Sys.argv;
@@ -871,6 +880,7 @@ let () =
              | "graphop" -> handle_graphop fields
              | "accept" -> handle_accept fields
              | "nopanic" -> handle_nopanic fields
+             | "meta" -> handle_meta fields
              | _ -> raise (Parse ("unknown family " ^ fam)))
           with Parse m -> report "DRIVER-ERROR" [m; line]; incr mismatches)
        | [] -> ()
